@@ -44,6 +44,7 @@ type node struct {
 	alive   bool // serving (not shut down, not killed)
 	stopped bool // graceful shutdown completed
 	killed  bool
+	replaced bool // a new instance has been started at its address
 }
 
 // app is an upstream application: a real client listener plus a stamped server.
@@ -101,6 +102,7 @@ type world struct {
 func host(i int) string { return fmt.Sprintf("10.0.0.%d", i+1) }
 
 type nodeOpts struct {
+	host         string
 	interval     time.Duration
 	proxyTimeout time.Duration
 	writeTimeout time.Duration
@@ -121,6 +123,9 @@ func newWorld(run *simkit.Run, ncfg simnet.Config) *world {
 func (w *world) startNode(o nodeOpts) *node {
 	i := len(w.nodes)
 	nd := &node{idx: i, id: fmt.Sprintf("n%d", i), host: host(i)}
+	if o.host != "" {
+		nd.host = o.host // a new instance (new id) at the address of one that shut down
+	}
 	conf := config.Default()
 	conf.Proxy.BindAddr = nd.host + ":8000"
 	conf.Upstream.BindAddr = nd.host + ":8001"
@@ -171,6 +176,16 @@ func (w *world) startNode(o nodeOpts) *node {
 	w.setLB()
 	w.run.Logf("started %s", nd.id)
 	return nd
+}
+
+// quiesce waits until nothing moves any more. With the execution-time fault
+// on, a goroutine that is about to finish may be asleep for a slice of
+// virtual time, which synctest.Wait alone would take for rest.
+func (w *world) quiesce() {
+	if w.run.Case.Cfg["stall_den"] > 0 {
+		time.Sleep(300 * time.Millisecond)
+	}
+	synctest.Wait()
 }
 
 // setLB points the load-balancer name at the serving nodes.
@@ -450,7 +465,7 @@ func endpointOf(hostHdr, pikoEndpoint string) string {
 }
 
 func (w *world) do(rq *httpReq) *httpResult {
-	target := fmt.Sprintf("http://%s:8000%s", host(rq.Entry), rq.Path)
+	target := fmt.Sprintf("http://%s:8000%s", w.nodes[rq.Entry].host, rq.Path)
 	r, err := http.NewRequest(rq.Method, target, bytes.NewReader(rq.Body))
 	if err != nil {
 		return &httpResult{Err: err}
@@ -575,7 +590,7 @@ func (w *world) settled() (bool, string) {
 func (w *world) waitSettled(intervals int, strictApps bool) (bool, string) {
 	why := ""
 	for i := 0; i < intervals/5+1; i++ {
-		synctest.Wait()
+		w.quiesce()
 		var ok bool
 		if ok, why = w.settled(); ok {
 			// and what nodes advertise equals what is really connected
